@@ -422,3 +422,183 @@ def spec_roots(P):
             roots.append(pv[1])
             slice_(pv[1])
     return roots
+
+
+# ----------------------------------------------------------------------------- the committed-choice meaning
+# Independent evaluation of coq/Match/Committed.v (`crun`) from the *description* of the pattern: one flat
+# environment threaded left to right, an OrValue takes the first alternative that matches from the environment
+# at the OrValue (a failed alternative leaves no trace, a later failure is final), the output nodes after the
+# first range over the nodes of the matched graph in graph order, the first tuple that matches (and is
+# removable, when asked) decides.  Returns None (no match), "err" (a tag variable clashes: outside the compared
+# domain) or {"bindings", "nodes" (matching order), "outs"}.
+
+class _CommittedErr(Exception):
+    pass
+
+
+def _c_bind(env, k, b):
+    if k in env:
+        return env if env[k] == b else None
+    e = dict(env)
+    e[k] = b
+    return e
+
+
+def _c_value(P, H, pv, v, st):
+    m, env, order = st
+    kind = pv[0]
+    if v is not None and v in H.foreign and kind not in ("any", "var", "const"):
+        return None
+    if kind == "any":
+        return st
+    if kind == "var":
+        e = _c_bind(env, ("v", pv[1]), bv(v))
+        if e is None or (v is None and not pv[2]):
+            return None
+        return (m, e, order)
+    if kind == "const":
+        e = _c_bind(env, ("k", pv[1]), bv(v))
+        if e is None or v is None or not const_ok(H, pv, v):
+            return None
+        return (m, e, order)
+    if kind == "out":
+        names = P["nodes"][pv[1]]["outs"]
+        name = names[pv[2]] if pv[2] < len(names) else None
+        e = _c_bind(env, ("v", name) if name is not None else ("k", ("out", pv[1], pv[2])), bv(v))
+        if e is None or v is None or v not in H.producer:
+            return None
+        n, i = H.producer[v]
+        if i != pv[2]:
+            return None
+        return _c_node(P, H, pv[1], n, (m, e, order))
+    if kind == "or":
+        e = _c_bind(env, ("v", pv[2]) if pv[2] is not None else ("k", pv[1]), bv(v))
+        if e is None:
+            return None
+        st1 = (m, e, order)
+        for tag, alt in pv[4]:
+            r = _c_value(P, H, alt, v, st1)
+            if r is not None:
+                if pv[3] is not None:
+                    e2 = _c_bind(r[1], ("v", pv[3]), ("tag", tag))
+                    if e2 is None:
+                        raise _CommittedErr("tag variable clash")
+                    r = (r[0], e2, r[2])
+                return r
+        return None
+    raise ValueError(pv)
+
+
+def _c_node(P, H, p, n, st):
+    m, env, order = st
+    if p in m:
+        return st if m[p] == n else None
+    np_ = P["nodes"][p]
+    hn = H.nodes[n]
+    if not spat_matches(np_["op"], hn["op"]) or not spat_matches(np_["dom"], hn.get("dom") or ""):
+        return None
+    hattrs = dict((a, b) for a, b in hn.get("attrs", []))
+    for name, ap in np_["attrs"]:
+        a = hattrs.get(name)
+        if ap[0] == "c":
+            if a is None:
+                return None
+            # a scalar pattern against a list attribute: no match (attr_const_matches answers False; the source before
+            # bbeff32 raised TypeError there -- an observed raise is classified by the harness, not compared here)
+            if not attr_const_matches(ap[1], a):
+                return None
+        else:
+            if a is None and not ap[2]:
+                return None
+            if ap[1] is not None:
+                env = _c_bind(env, ("v", ap[1]), ("none",) if a is None else ("attr", name, attr_value_key(a)))
+                if env is None:
+                    return None
+    if not np_["other_attrs"] and any(a not in dict(np_["attrs"]) for a in hattrs):
+        return None
+    m = dict(m)
+    m[p] = n
+    order = order + [n]
+    if len(hn["ins"]) > len(np_["ins"]) and not np_["other_ins"]:
+        return None
+    st = (m, env, order)
+    for i, pv in enumerate(np_["ins"]):
+        a = hn["ins"][i] if i < len(hn["ins"]) else None
+        if pv is None:
+            if a is not None:
+                return None
+            continue
+        st = _c_value(P, H, pv, a, st)
+        if st is None:
+            return None
+    m, env, order = st
+    for i, name in enumerate(np_["outs"]):
+        if i >= len(hn["outs"]):
+            return None
+        env = _c_bind(env, ("v", name) if name is not None else ("k", ("out", p, i)), ("val", hn["outs"][i]))
+        if env is None:
+            return None
+    return (m, env, order)
+
+
+def _c_outputs(P, st):
+    m, env, order = st
+    outs = []
+    for pv in P["outs"]:
+        k = pv[0]
+        if k == "var":
+            b = env.get(("v", pv[1]))
+        elif k == "out":
+            names = P["nodes"][pv[1]]["outs"]
+            name = names[pv[2]] if pv[2] < len(names) else None
+            b = env.get(("v", name)) if name is not None else env.get(("k", ("out", pv[1], pv[2])))
+        elif k == "or":
+            b = env.get(("v", pv[2])) if pv[2] is not None else env.get(("k", pv[1]))
+        elif k == "const":
+            b = env.get(("k", pv[1]))
+        else:
+            b = None
+        if b is None:
+            return None
+        outs.append(b)
+    return outs
+
+
+def committed_match(P, H, roots, root0, rm):
+    if not roots:
+        return "err"
+    lists = [[root0]]
+    for r in roots[1:]:
+        np_ = P["nodes"][r]
+        lists.append([n for n in range(len(H.nodes)) if H.own(n)
+                      and (np_["op"][0] != "exact" or (H.nodes[n]["op"] == np_["op"][1] and (H.nodes[n].get("dom") or "") == np_["dom"][1]))])
+    try:
+        for cand in itertools.product(*lists):
+            st = ({}, {}, [])
+            for r, n in zip(roots, cand):
+                st = _c_node(P, H, r, n, st)
+                if st is None:
+                    break
+            if st is None:
+                continue
+            outs = _c_outputs(P, st)
+            if outs is None:
+                continue
+            if rm and not removable(H, set(st[2]), outs):
+                continue
+            bindings = {k[1]: b for k, b in st[1].items() if k[0] == "v"}
+            for x in P["inputs"]:
+                bindings.setdefault(x, ("none",))
+            return {"bindings": bindings, "nodes": list(st[2]), "outs": outs}
+    except _CommittedErr:
+        return "err"
+    return None
+
+
+def committed_match_variants(variants, H, root0, rm):
+    """RewriteRuleSet(commute=True): the variants in order, the first that matches."""
+    for Pv, rv in variants:
+        r = committed_match(Pv, H, rv, root0, rm)
+        if r is not None:
+            return r
+    return None
